@@ -377,6 +377,11 @@ def run(prog, rep):
             else:
                 kind, gname = ik
                 d = n.targets[0].value
+                if isinstance(d, ast.Name):
+                    # a local naming the attribute dictionary of the node (alias set inside the loop)
+                    al = [a.value for a in ast.walk(l) if isinstance(a, ast.Assign) and any(isinstance(t, ast.Name) and t.id == d.id for t in a.targets)]
+                    if len(al) == 1 and isinstance(al[0], ast.Subscript):
+                        d = al[0]
                 if kind == 'keys':
                     on_iterated = isinstance(l.target, ast.Name) and isinstance(d, ast.Subscript) and isinstance(d.slice, ast.Name) and d.slice.id == l.target.id \
                         and isinstance(d.value, ast.Attribute) and d.value.attr == 'nodes' and isinstance(d.value.value, ast.Name) and d.value.value.id == gname
